@@ -114,6 +114,9 @@ def __sync__(
     global GLOBAL_SCHEMA
     global INSTANCE_CONFIG
 
+    # Unpack everything first and only then update the worker state, so
+    # that a failure half-way leaves the state exactly as the server knows it
+    # (the server does not record a failed sync).
     try:
         db = DBS.get(dbname)
         if db is None:
@@ -129,7 +132,6 @@ def __sync__(
                 reflection_cache_unpacked,
                 database_config_unpacked,
             )
-            DBS = DBS.set(dbname, db)
         else:
             updates = {}
 
@@ -142,17 +144,22 @@ def __sync__(
 
             if updates:
                 db = db._replace(**updates)
-                DBS = DBS.set(dbname, db)
 
         if global_schema is not None:
-            GLOBAL_SCHEMA = pickle.loads(global_schema)
+            global_schema_unpacked = pickle.loads(global_schema)
 
         if system_config is not None:
-            INSTANCE_CONFIG = pickle.loads(system_config)
+            system_config_unpacked = pickle.loads(system_config)
 
     except Exception as ex:
         raise state.FailedStateSync(
             f'failed to sync worker state: {type(ex).__name__}({ex})') from ex
+
+    DBS = DBS.set(dbname, db)
+    if global_schema is not None:
+        GLOBAL_SCHEMA = global_schema_unpacked
+    if system_config is not None:
+        INSTANCE_CONFIG = system_config_unpacked
 
     return db
 
